@@ -37,6 +37,8 @@ func init() {
 
 func runC12(c *eng.Ctx) {
 	p := c.P
+	unknownSelectFieldFailsTheLeaf(c)
+	everyReceiverIsAnswered(c)
 	rowsInsideFirstRowsFamilyRange(c)
 	leafShipsEveryGroup(c)
 	responseErrorAlwaysExamined(c)
